@@ -102,7 +102,7 @@ def make_class(rng, fields, rename_p=0.3, defaults=False, name=None):
         xof[xn] = ft
         pn = xn
         if rng.random() < rename_p:
-            pn = "py_" + xn
+            pn = ("py_" if rng.random() < 0.7 else "_") + xn   # also names with a leading underscore
             ren[xn] = pn
         spec_fields.append((xn, pn, kind, sub, dflt))
     ns = {"_xofields": xof}
